@@ -719,3 +719,60 @@ def vc_constructors(H):
             ctx.oblige(f'{meth}: MultiVector(self, *args, grades={grades}, **kwargs)', bool(ok), meta={'got': repr(r)})
             return r
         H.run_paths(fuc, '', body)
+
+
+def vc_call(H):
+    """C12: calling a multivector binds positional arguments to its free symbols in name order and keyword arguments by name
+    (values sorted by keyword, matching the name-sorted symbols when the keyword set equals the symbol names)."""
+    fuc = H.fn(MV, 'MultiVector.__call__')
+    fl = H.fn('kingdon/codegen.py', '_lambdify_mv')
+
+    def body(ctx):
+        func = sym('func')
+        me = sym('self', attrs={'free_symbols': {'s'}, '_callable': (sym('keys_out'), func), 'algebra': sym('algebra'),
+                                'fromkeysvalues': sym('fromkeysvalues')})
+        a1, a2 = sym('a1'), sym('a2')
+        r = H.closure(Interp(ctx, source_name=MV), fuc, {'sorted': sorted})(me, a1, a2)
+        exp = Rec('call', me.attrs['fromkeysvalues'], (me.attrs['algebra'], sym('keys_out'), Rec('call', func, ((a1, a2),), {})), {})
+        ctx.oblige('call(*args): the function receives the positional values as one sequence, in order', same(r, exp), meta={'got': repr(r)})
+        return r
+    H.run_paths(fuc, 'positional', body)
+
+    def body2(ctx):
+        func = sym('func')
+        me = sym('self', attrs={'free_symbols': {'s'}, '_callable': (sym('keys_out'), func), 'algebra': sym('algebra'),
+                                'fromkeysvalues': sym('fromkeysvalues')})
+        vb, va, vc = sym('vb'), sym('va'), sym('vc')
+        r = H.closure(Interp(ctx, source_name=MV), fuc, {'sorted': sorted})(me, b=vb, a=va, c=vc)
+        exp = Rec('call', me.attrs['fromkeysvalues'], (me.attrs['algebra'], sym('keys_out'), Rec('call', func, ([va, vb, vc],), {})), {})
+        ctx.oblige('call(**kwargs): values are passed sorted by keyword name', same(r, exp), meta={'got': repr(r)})
+        return r
+    H.run_paths(fuc, 'keywords', body2)
+
+    def body3(ctx):
+        me = sym('self', attrs={'free_symbols': set()})
+        r = H.closure(Interp(ctx, source_name=MV), fuc)(me, sym('x'))
+        ctx.oblige('call on a multivector without free symbols returns it unchanged', r is me)
+        return r
+    H.run_paths(fuc, 'no-symbols', body3)
+
+    def body4(ctx):
+        class S:
+            def __init__(self, n):
+                self.name = n
+        sb, sa = S('b1'), S('a2')
+        vals, keys = sym('values'), sym('keys')
+        alg = sym('algebra', attrs={'cse': sym('cse')})
+        mv = sym('mv', attrs={'free_symbols': {sb, sa}, 'algebra': alg, 'values': sym('mv.values', callable_result=lambda i, m, a, k: [vals]),
+                              'keys': sym('mv.keys', callable_result=lambda i, m, a, k: (keys,)), 'type_number': 5})
+        lam = sym('lambdify')
+        r = H.closure(Interp(ctx, source_name='kingdon/codegen.py'), fl,
+                      {'lambdify': lam, 'sorted': sorted, 'CodegenOutput': lambda k, f: ('CodegenOutput', k, f),
+                       '_type_id': sym('_type_id', callable_result=lambda i, m, a, k: 'T')})(mv)
+        calls = [e for e in ctx.events if e[0] == 'call' and e[1] is lam]
+        ok = len(calls) == 1 and calls[0][3].get('args') == {'x': [sa, sb]} and same(calls[0][3].get('exprs'), [vals]) \
+            and isinstance(r, tuple) and same(r[1], (keys,))
+        ctx.oblige('_lambdify_mv: the single argument unpacks into the free symbols sorted by name; expressions are the values in order; '
+                   'result keys are the keys in order', bool(ok), meta={'got': repr(calls)})
+        return r
+    H.run_paths(fl, '', body4)
